@@ -59,7 +59,8 @@ Inductive fsop :=
 | FRm (p : path)
 | FMkdir (p : path)
 | FRmtree (p : path)
-| FCorruptCache (p : path) (j : option pyval).  (* replace the content of the cache file *)
+| FCorruptCache (p : path) (j : option pyval)   (* replace the content of the cache file *)
+| FNewerVersion (p : path).                     (* a cache file written by a newer format version *)
 
 Definition tick (w : world) : world := set_clock (N.succ (w_clock w)) (w_nextid w) w.
 
@@ -73,7 +74,7 @@ Definition apply_fsop (w : world) (o : fsop) : world :=
       | inl fs1 =>
           match write_file fs1 p b None (w_clock w1) (w_nextid w1) with
           | inl fs2 => set_clock (w_clock w1) (N.succ (w_nextid w1)) (set_fs fs2 w1)
-          | inr _ => w1
+          | inr _ => set_fs fs1 w1
           end
       | inr _ => w1
       end
@@ -94,6 +95,15 @@ Definition apply_fsop (w : world) (o : fsop) : world :=
   | FCorruptCache p j =>
       match lookup (w_fs w) p with
       | Some (NFile f) => set_fs (upd p (Some (NFile {| f_bytes := "<corrupt>"; f_mtime := f_mtime f; f_id := f_id f; f_json := j |})) (w_fs w)) w
+      | _ => w
+      end
+  | FNewerVersion p =>
+      match lookup (w_fs w) p with
+      | Some (NFile f) =>
+          let j := match f_json f with
+                   | Some (PDict d) => Some (PDict (assoc_set (PStr "cacheFileVersion") (PInt 2) d))
+                   | x => x end in
+          set_fs (upd p (Some (NFile {| f_bytes := "<newer>"; f_mtime := f_mtime f; f_id := f_id f; f_json := j |})) (w_fs w)) w
       | _ => w
       end
   end.
@@ -147,7 +157,7 @@ Definition new_log (before after : world) : list logentry :=
 
 Definition show_result (r : build_result) : string :=
   match r with
-  | Refused e => "refused:" ++ exn_class e
+  | Refused e => "err:" ++ exn_class e
   | Done o => show_outcome o
   end.
 
